@@ -117,7 +117,18 @@ def rand_spec(r, wellformed=False, relations=None, focus=None):
                 p_["default"] = {"bool": "true", "double": "1.5", "float": "0.5f", "char": "'c'"}.get(p_["type"], "0")
             ops.append(dict(name=verb, ret="void", params=ps, virtual=False, static=False, const=False, vis="public", doc=""))
         classes.append(dict(name=cn, ns=r.choice(NSS), kind="class", doc="", attrs=[], ops=ops, literals=[]))
+    twins = None
+    if focus == "twins":
+        # two elements with the same unqualified name in different packages, one referring to the other (only meaningful with
+        # namespace folders: <A>/<Name>.h and <B>/<Name>.h are different files)
+        tn = _ident(r, WORDS, taken, "")
+        classes.append(dict(name=tn, ns="Proto", kind="interface", doc="", attrs=[], literals=[],
+                            ops=[dict(name="Poll", ret="int", params=[], virtual=True, static=False, const=False, vis="public", doc="")]))
+        classes.append(dict(name=tn, ns=r.choice(["App", "App::Core"]), kind="class", doc="", attrs=[], ops=[], literals=[]))
+        twins = (len(classes) - 2, len(classes) - 1)
     spec = dict(diagram="Synth" + r.choice(["", "A", "B"]), classes=classes, inherits=[], assocs=[])
+    if twins:
+        spec["inherits"].append(dict(frm=twins[0], to=twins[1], realization=True))
     if relations if relations is not None else r.random() < 0.5:
         add_relations(r, spec, wellformed)
         add_typed_members(r, spec)
